@@ -239,7 +239,11 @@ def split_delay_tags(series, hed_schema, onsets):
             if delay is None:
                 # Not a usable delay (bad value or unit): leave the group in place for validation to report.
                 continue
-            onset_mod = delay + float(onsets[i])
+            try:
+                onset_mod = delay + float(onsets[i])
+            except (TypeError, ValueError):
+                # The row has no usable onset (e.g. n/a): it cannot be shifted, leave the group in place.
+                continue
             to_remove.append(group)
             insert_index = split_df['original_index'].index.max() + 1
             split_df.loc[insert_index] = {'HED': str(group), 'onset': onset_mod, 'original_index': i}
